@@ -547,6 +547,31 @@ pub fn run(name: &str) -> Option<bool> {
             let fused = crate::outcome::run(&p, &bytes(&["fetch", "-K?"]));
             matches!(split, Outcome::Stdout { .. }) && split != fused
         }
+        // C10: `command("cmd", ..).optional().catch()`: `cmd --help` printed the help of the
+        // enclosing level, the output the subcommand handed up was caught like a failure
+        "catch_swallows_subcommand_help" => {
+            let mut copts = OptSpec::plain(Spec::Seq(vec![item(11, Names::long("flag"), Leaf::Switch)]));
+            copts.descr = Some("inner-descr".into());
+            let cmd = Spec::Cmd(Box::new(CmdSpec {
+                id: 10,
+                names: vec!["cmd".to_string()],
+                shorts: vec![],
+                help: None,
+                adjacent: false,
+                opts: copts,
+            }));
+            let mut o = OptSpec::plain(Spec::Seq(vec![Spec::wrap(
+                W::Optional { catch: true },
+                12,
+                Spec::Alt(vec![cmd]),
+            )]));
+            o.descr = Some("outer-descr".into());
+            let p = build_options(&o);
+            match crate::outcome::run(&p, &bytes(&["cmd", "--help"])) {
+                Outcome::Stdout { text, .. } => !text.contains("inner-descr"),
+                _ => true,
+            }
+        }
         // C02: `short('h').argument("HOST")`: `-h foo` accepted, `-hfoo` "ambiguous"
         "builtin_help_letter_declared_as_argument" => {
             let o = OptSpec::plain(Spec::Seq(vec![arg(1, Names::short('h'), Ty::Str)]));
